@@ -773,6 +773,12 @@ long d_string_replace_text_in_range(DString * d, size_t pos, size_t len, const c
 		long len_r = strlen(replace);
 		long change = len_r - len_o;	// Change in length for each replacement
 
+		if (len_o == 0) {
+			// Nothing to look for (the empty string matches everywhere, so
+			// the loop below would insert `replace` forever)
+			return 0;
+		}
+
 		size_t stop;
 
 		if ((len == -1) || (len > d->currentStringLength - pos)) {
